@@ -18,7 +18,7 @@ SPEC = dict(
     quick=dict(cases=600, len=60, shards=4),
     thorough=dict(cases=16000, len=90, shards=16),
     nontrivial=nontrivial,
-    rule="cases = random schedules of span arrivals (root/child, several traces), fake-clock advances, send ticks, "
+    rule="cases = random schedules of descendant arrivals (root/child; non-root ones 65% plain spans, 25% span events, 10% span links via meta.annotation_type; several traces), fake-clock advances, send ticks, "
          "ejections and checkAlloc calls on a real InMemCollector (1-3 parked workers) under a random TracesConfig "
          "(TraceTimeout/SendDelay/SpanLimit/MaxExpiredTraces incl. 0 = fall-back/unlimited, all-zero config, "
          "SpanLimit >= 2^32, MaxExpiredTraces = 2^63); ~65% of the advances land exactly on, 1 ns before or 1 ns after "
